@@ -612,7 +612,7 @@ def _sqrt(x):
         rn, rd = _m.isqrt(n), _m.isqrt(d)
         if rn * rn == n and rd * rd == d:
             return _norm(Fraction(rn, rd))
-        return T.sqrt(lift(q))
+        return T._sqrt_of_rational(q)
     return T.sqrt(x)
 
 
